@@ -149,9 +149,9 @@ def check_heading_slug_func(
             raise TypeError(
                 f"'{field.name}' could not be loaded from string: {value!r}"
             ) from exc
-        setattr(inst, field.name, value)
     if not callable(value):
         raise TypeError(f"'{field.name}' is not callable: {value!r}")
+    setattr(inst, field.name, value)
 
 
 def _test_slug_func(text: str) -> str:
